@@ -384,6 +384,19 @@ func TestC14TableSequential(t *testing.T) {
 			if _, ok := model[k]; ok {
 				rewrites++
 			}
+			if ev.Formatted != nil && rapid.IntRange(0, 4).Draw(t, "direct") == 0 {
+				// the table is an exported field: a node may also edit it directly
+				if rapid.Bool().Draw(t, "delete") {
+					delete(ev.Formatted, k)
+					delete(model, k)
+					hist = append(hist, fmt.Sprintf("delete(Formatted,%q)", k))
+				} else {
+					ev.Formatted[k] = v
+					model[k] = v
+					hist = append(hist, fmt.Sprintf("Formatted[%q]=%dB", k, len(v)))
+				}
+				continue
+			}
 			ev.FormattedAs(k, v)
 			model[k] = v
 			hist = append(hist, fmt.Sprintf("FormattedAs(%q,%dB)", k, len(v)))
